@@ -17,6 +17,8 @@ def _run_tlc(d, cfg, dot):
     return subprocess.run(
         ["tlc", "-workers", "1", "-noGenerateSpecTE", "-metadir", os.path.join(d, "meta"), "-deadlock", "-config", cfg, "-dump", "dot,actionlabels", dot, "WriteBack.tla"],
         cwd=d, capture_output=True, text=True, timeout=300,
+        # TLC and SANY unpack their standard modules under java.io.tmpdir and leave them behind: keep that inside d
+        env=dict(os.environ, JAVA_TOOL_OPTIONS=f"-Djava.io.tmpdir={os.path.join(d, 'jtmp')}"),
     )
 
 
@@ -39,6 +41,7 @@ def graph(parts, atomic=True):
             f.write(f"CONSTANTS Parts = {parts}  Atomic = {'TRUE' if atomic else 'FALSE'}\nINIT Init\nNEXT Next\nINVARIANTS TypeOK NeverDamaged\n")
         shutil.copy(os.path.join(MODEL_DIR, "WriteBack.tla"), os.path.join(d, "WriteBack.tla"))
         dot = os.path.join(d, "g.dot")
+        os.makedirs(os.path.join(d, "jtmp"), exist_ok=True)
         try:
             r = _run_tlc(d, cfg, dot)
         except Exception:  # noqa: BLE001 - TLC is supplementary: never let it break the check
